@@ -179,6 +179,28 @@ func (r relationSlice) ToRelationIDsForUnsafe(world *World, out []relationID) []
 	return out
 }
 
+// checkRelationsAdded panics if a relation target is given for a component that is not among the added components.
+// Such a target would be taken for the target of another, unspecified relation component
+// by the checks for fully specified relation targets.
+func checkRelationsAdded(ids []ID, relations []relationID) {
+	if len(ids) == 0 {
+		// Reported by the check for at least one added component.
+		return
+	}
+	for i := range relations {
+		found := false
+		for _, id := range ids {
+			if id == relations[i].component {
+				found = true
+				break
+			}
+		}
+		if !found {
+			panic(fmt.Sprintf("relation target given for component with ID %d, which is not among the added components", relations[i].component.id))
+		}
+	}
+}
+
 // toRelation converts an entity and a component ID to relationIDs.
 func toRelation(world *World, e Entity, id ID, out []relationID) []relationID {
 	world.storage.checkRelationTarget(e)
